@@ -952,29 +952,36 @@ class Normalizer:
             return r
         return fin(t)
 
-    def canon_loop(self, raw, k, fin):
-        _, d, header, vars_ = raw
-        # dependency closure from k (and from the while condition)
-        order = []
+    def _refs(self, term, d, acc):
+        """indices j of the loop variables ('lv', d, j) that `term` reads; a nested loop contributes only through the
+        variables its own selected output depends on (dead variables of an inner loop keep nothing alive)"""
+        if isinstance(term, tuple):
+            if term and term[0] == 'lv' and term[1] == d:
+                if term[2] not in acc:
+                    acc.append(term[2])
+                return
+            if len(term) == 3 and term[0] == 'lout' and isinstance(term[1], tuple) and term[1] and term[1][0] == 'rawloop' and getattr(self, 'prune_loops', True):
+                raw2 = term[1]
+                for v in self._closure(raw2, term[2]):
+                    self._refs(raw2[3][v][0], d, acc)
+                    self._refs(raw2[3][v][1], d, acc)
+                self._refs(raw2[2], d, acc)
+                return
+            if term and term[0] == 'rawloop':
+                for (i0, b0) in term[3]:
+                    self._refs(i0, d, acc)
+                    self._refs(b0, d, acc)
+                self._refs(term[2], d, acc)
+                return
+            for y in term:
+                self._refs(y, d, acc)
 
-        def refs(term, acc):
-            if isinstance(term, tuple):
-                if term and term[0] == 'lv' and term[1] == d:
-                    if term[2] not in acc:
-                        acc.append(term[2])
-                    return
-                if term and term[0] == 'rawloop':
-                    # nested raw loop: look inside its inits and bodies
-                    for (i0, b0) in term[3]:
-                        refs(i0, acc)
-                        refs(b0, acc)
-                    refs(term[2], acc)
-                    return
-                for y in term:
-                    refs(y, acc)
+    def _closure(self, raw, k):
+        _, d, header, vars_ = raw
+        order = []
         seeds = []
         if header[0] == 'while':
-            refs(header[1], seeds)
+            self._refs(header[1], d, seeds)
         if k is not None and k not in seeds:
             seeds.insert(0, k)
         work = list(seeds)
@@ -984,10 +991,15 @@ class Normalizer:
                 continue
             order.append(v)
             acc = []
-            refs(vars_[v][1], acc)
+            self._refs(vars_[v][1], d, acc)
             for w in acc:
                 if w not in order and w not in work:
                     work.append(w)
+        return order
+
+    def canon_loop(self, raw, k, fin):
+        _, d, header, vars_ = raw
+        order = self._closure(raw, k)
         if not getattr(self, 'prune_loops', True):
             order = list(range(len(vars_)))
         ren = {v: i for i, v in enumerate(order)}
